@@ -238,6 +238,31 @@ func xFlowSpec(s *Src, f bgp.Family) bgp.NLRI {
 	for i, n := 0, 1+s.Intn(4); i < n; i++ {
 		chosen[s.Intn(len(types))] = true
 	}
+	if s.Chance(1, 8) {
+		// around the 240-octet threshold of the NLRI length prefix (RFC 8955 4.1): one numeric component whose
+		// items add up to a chosen total of 222..250 octets (with the 8-octet RD of the VPN families: 230..258)
+		t := bgp.FLOW_SPEC_TYPE_IP_PROTO
+		total := s.Range(222, 250)
+		var items []*bgp.FlowSpecComponentItem
+		rest := total - 1 // the type octet
+		if rest%2 == 1 {
+			items = append(items, bgp.NewFlowSpecComponentItem(bgp.DEC_NUM_OP_EQ|1<<4, uint64(0x100+s.Intn(200)))) // operator + 2-octet value
+			rest -= 3
+		}
+		for ; rest > 0; rest -= 2 {
+			op := uint8(bgp.DEC_NUM_OP_EQ)
+			if len(items) > 0 && s.Bool() {
+				op |= bgp.DEC_NUM_OP_AND
+			}
+			items = append(items, bgp.NewFlowSpecComponentItem(op, uint64(s.Intn(256)))) // operator + 1-octet value
+		}
+		comps := []bgp.FlowSpecComponentInterface{bgp.NewFlowSpecComponent(t, items)}
+		switch f {
+		case bgp.RF_FS_IPv4_UC, bgp.RF_FS_IPv6_UC:
+			return must(bgp.NewFlowSpecUnicast(f, comps))
+		}
+		return must(bgp.NewFlowSpecVPN(f, xRD(s), comps))
+	}
 	huge := s.Chance(1, 16) // 240 octets or more: two octet NLRI length
 	var comps []bgp.FlowSpecComponentInterface
 	for i, t := range types {
